@@ -277,3 +277,18 @@ PROPS["C15"] = Prop(
     trusted=COMMON_TRUST + ["probe RateConstant subclass (harness only)"],
     assumptions=["built-in formulas (exp/pow/log10) are oracles in the theorem; they are not compared here"],
 )
+
+PROPS["C17"] = Prop(
+    "C17",
+    family_driver={"vsem": ("drv_valsem", "asan")},
+    model_families={"vsem"},
+    generate=lambda rng, tier: G.gen_vsem(rng, tier),
+    rule="random sequences of 3-12 (quick) / 3-30 (thorough) operations GetState / copy-construct / copy-assign / "
+         "move-construct / move-assign / set / solve / solver move over 4 State variables, Rosenbrock and backward Euler, "
+         "row-major + separate LU and grouped L=3 + in-place LU, under ASan+UBSan; every solve is compared bit for bit with "
+         "the same problem on a fresh State and the other States are checked unchanged; non-trivial = contains a solve "
+         "after a copy or move",
+    trusted=COMMON_TRUST + ["ASan + UBSan (vptr) build: undefined behaviour aborts the case and is reported as UB:<kind>"],
+    nontrivial=lambda l: " 6 " in l,
+    oracle_tokens=["ORACLE_COPY_OR_MOVE_CHANGES_RESULT", "ORACLE_SOLVE_AFFECTS_ANOTHER_STATE"],
+)
